@@ -155,10 +155,12 @@ def extra_obligations():
     """`ScopeMetrics._complete_if_able` and `_finish` regenerated from /repo's metrics.py as MiniPy terms: Lean re-checks that each
     is exactly one level of `Completion.completeUp` / `Completion.finish` - assertion on a resolved future, nothing touched unless
     the scope was left and its nested scopes are completed, the future resolved exactly once with the elapsed time, then (and only
-    then) the registered parent asked exactly once"""
+    then) the registered parent asked exactly once; and the re-parenting loop of `ScopeMetrics.__init__` (one iteration regenerated,
+    the loop by a committed induction): the new scope registers under exactly the ancestor `Completion.adopter` chooses - the
+    nearest one whose completion future is not resolved"""
     from harness import core, regen
 
-    return regen.check("completion", core.REPO, core.LEAN)
+    return regen.check("completion", core.REPO, core.LEAN) + regen.check("adopt", core.REPO, core.LEAN)
 
 
 def corpus():
